@@ -790,7 +790,16 @@ theorem sim_Q (hR : R env m s) (hall : allowed s.txt.isSome .Q = true) (hw : wel
   simp only [apply] at happ
   have hst := hR.stack
   cases hss : s.stack with
-  | nil => rw [hss] at happ; simp at happ
+  | nil =>
+    rw [hss] at happ hst
+    simp only at happ
+    split at happ
+    · simp only [Option.some.injEq, Prod.mk.injEq] at happ
+      obtain ⟨rfl, rfl⟩ := happ
+      cases hgs : m.gstack with
+      | nil => simp only [call, hgs]; exact ⟨hR, by first | rfl | trivial⟩
+      | cons sv grest => rw [hgs] at hst; simp [StackRel] at hst
+    · simp at happ
   | cons g rest =>
     rw [hss] at happ hst
     simp only [Option.some.injEq, Prod.mk.injEq] at happ
